@@ -231,6 +231,10 @@ var boundarySrc = []string{
 	"package x\n\nimport (\n\t_ \"strings\"\n\t\"strings\"\n)\n\nfunc F() string { return strings.ToUpper(\"a\") }\n",
 	"package x\n\nimport (\n\t\"strings\"\n\t_ \"strings\"\n)\n\nfunc F() string { return strings.ToUpper(\"a\") }\n",
 	"package x\n\nimport . \"strings\"\n\nfunc F() string { return ToUpper(\"a\") }\n",
+	// a blank import of ANOTHER package with the same name: kept next to the plain one in source order,
+	// but the sorted output puts the blank one first, and the second pass then drops the plain one
+	"package x\n\nimport (\n\t\"gno.land/r/nt/commondao/v0\"\n\t_ \"gno.land/p/nt/commondao/v0\"\n)\n\nfunc F() { commondao.New() }\n",
+	"package x\n\nimport (\n\t_ \"gno.land/p/nt/commondao/v0\"\n\t\"gno.land/r/nt/commondao/v0\"\n)\n\nfunc F() { commondao.New() }\n",
 	"package x\n\nimport . \"strings\"\n\nfunc F() string { return \"a\" }\n", // dot import nobody needs: dropped, no verdict against it
 }
 
@@ -310,9 +314,9 @@ func gen(w *kit.Out, r *kit.Rand, tier string) {
 		os.Exit(1)
 	}
 	// boundary table: inline sources, on their own
-	w.Case("boundary")
-	for _, src := range boundarySrc {
+	for i, src := range boundarySrc {
 		if s := summarize("x.gno", []byte(src), nil); s != nil {
+			w.Case(fmt.Sprintf("b%d", i))
 			w.Op("fmt h:%s o %s", hex.EncodeToString([]byte(src)), s.tokens())
 		}
 	}
@@ -331,7 +335,6 @@ func gen(w *kit.Out, r *kit.Rand, tier string) {
 	chosen := append([]int(nil), perm[:nfiles]...)
 	sort.Ints(chosen)
 	pathSet := map[string]bool{}
-	w.Case("corpus")
 	type entry struct {
 		rel string
 		sum *summary
@@ -352,6 +355,7 @@ func gen(w *kit.Out, r *kit.Rand, tier string) {
 			}
 		}
 		usable = append(usable, entry{files[i], s})
+		w.Case(fmt.Sprintf("f%d", i))
 		w.Op("fmt x:%s o %s", files[i], s.tokens())
 	}
 	var pool []string
@@ -363,7 +367,6 @@ func gen(w *kit.Out, r *kit.Rand, tier string) {
 		pool = []string{"strings"}
 	}
 	// import-block mutations of corpus files
-	w.Case("mutations")
 	layouts := []string{"g", "s", "2", "b"}
 	for n := 0; n < nmut && len(usable) > 0; n++ {
 		e := usable[r.Intn(len(usable))]
@@ -385,6 +388,7 @@ func gen(w *kit.Out, r *kit.Rand, tier string) {
 		if again, ok := relayout(body, s.specs, layout); !ok || string(again) != string(nsrc) {
 			continue
 		}
+		w.Case(fmt.Sprintf("m%d", n))
 		w.Op("fmt x:%s %s %s", e.rel, layout, s.tokens())
 	}
 	w.Case("malformed")
